@@ -136,7 +136,7 @@ func verifH_C06_readonly() {
 	verifReach("end")
 }
 
-//verif:harness id=C06 tier=quick,thorough witness=end bounds="form decoding (UrlencodedBodyDecoder -> decodeSchemaConstructs -> decodeProperty) on url-encoded bodies built from leaf texts over [0-9a-z-] of 1-2 bytes: object schema with properties {i: integer, s: string, b: boolean}, each field present or absent; decoded object has exactly the present fields with the values they encode; a present field that does not parse as its type makes the request fail"
+//verif:harness id=C06 tier=quick,thorough witness=end bounds="form decoding (UrlencodedBodyDecoder -> decodeSchemaConstructs -> decodeProperty) on url-encoded bodies built from leaf texts over [0-9a-z-] of 1-2 bytes: object schema with properties {i: integer, s: string, b: boolean}, each field present or absent (the string field also present with the empty string); decoded object has exactly the present fields with the values they encode; a present field that does not parse as its type makes the request fail"
 func verifH_C06_form() {
 	prim := func(t string) *openapi3.SchemaRef {
 		return &openapi3.SchemaRef{Value: &openapi3.Schema{Type: &openapi3.Types{t}}}
@@ -147,6 +147,15 @@ func verifH_C06_form() {
 	body := ""
 	texts := map[string]string{}
 	for k, n := range names {
+		if n == "s" && verifChoose("empty_s", 2) == 1 {
+			// s= : the field is there and its value is the empty string
+			texts[n] = ""
+			if body != "" {
+				body += "&"
+			}
+			body += "s="
+			continue
+		}
 		if verifChoose("has_"+n, 2) == 1 {
 			t := verifNondetStringN("v_"+n, 1+verifChoose("len_"+n, 2))
 			for j := 0; j < len(t); j++ {
@@ -186,6 +195,9 @@ func verifH_C06_form() {
 	verifAssert(err == nil, "C06 form: a well-formed form body decodes")
 	if err == nil {
 		obj, ok := got.(map[string]any)
+		if t, sent := texts["s"]; sent && t == "" {
+			verifKnown("C06-form-empty-string-dropped", true)
+		}
 		verifAssert(ok && len(obj) == len(texts), "C06 form: the decoded object has exactly the present fields")
 		if ok {
 			for k, n := range names {
@@ -195,6 +207,7 @@ func verifH_C06_form() {
 				}
 			}
 		}
+		verifKnown("C06-form-empty-string-dropped", false)
 	}
 	verifReach("end")
 }
